@@ -1,1 +1,274 @@
-def main : IO Unit := IO.println "driver C18: not built yet"
+import VncModel.Basic.Proto
+import VncModel.Clip.Model
+/-! Line-protocol driver for the clipboard model (C18).  Same script as harness/c18.c.
+
+zlib in the driver: payloads sent by the reference peer come with a `zdef` line (what Python's
+independent zlib makes of them); streams the two libraries produce for each other are never
+observed byte-wise, the driver uses a tagged identity "compression" for them. -/
+open VncModel VncModel.Clip VncModel.Proto VncModel.Gen.C18
+
+def fnv (bs : Bytes) : UInt64 :=
+  bs.foldl (fun h b => (h ^^^ b.toUInt64) * 1099511628211) 1469598103934665603
+
+def hexN (digits : Nat) (n : Nat) : String :=
+  String.ofList ((List.range digits).reverse.map fun i => hexChar (n / 16 ^ i % 16))
+
+def hex16 (h : UInt64) : String := hexN 16 h.toNat
+def hex8 (n : Nat) : String := hexN 8 n
+
+def hexVal (c : UInt8) : Option UInt8 :=
+  if 48 ≤ c && c ≤ 57 then some (c - 48)
+  else if 97 ≤ c && c ≤ 102 then some (c - 87)
+  else if 65 ≤ c && c ≤ 70 then some (c - 55)
+  else none
+
+def unhexFast (s : String) : Option Bytes :=
+  if s == "-" then some [] else
+  let a := s.toUTF8
+  if a.size % 2 ≠ 0 then none else
+  let rec go : Nat → Bytes → Option Bytes
+    | 0, acc => some acc
+    | k + 1, acc =>
+      match hexVal a[2 * k]!, hexVal a[2 * k + 1]! with
+      | some x, some y => go k ((x * 16 + y) :: acc)
+      | _, _ => none
+  go (a.size / 2) []
+
+inductive Kind where
+  | raw | rawpre | lib | fsrv
+  deriving DecidableEq
+
+structure Conn where
+  id : Nat
+  kind : Kind
+  cl : Cl := {}
+  lc : LC := ⟨true, false, 0⟩
+  dropped : Bool := false
+
+structure DS where
+  cfg : Cfg := ⟨true⟩
+  blobs : List (String × Bytes) := []
+  ztab : List ((Nat × UInt64) × InflRes) := []
+  conns : List Conn := []
+
+def env0 : Env := ⟨0⟩
+
+def mkZ (tab : List ((Nat × UInt64) × InflRes)) : Zlib where
+  inflateAll z :=
+    match tab.lookup (z.length, fnv z) with
+    | some r => r
+    | none =>
+      match z with
+      | 1 :: x => ⟨x, .done⟩
+      | 2 :: x => ⟨x, .more⟩
+      | _ => ⟨[], .err⟩
+  compress x := 1 :: x
+  compressSync x := 2 :: x
+
+def DS.blob (s : DS) (n : String) : Option Bytes := s.blobs.lookup n
+
+def DS.conn (s : DS) (id : Nat) : Option Conn := s.conns.find? (·.id == id)
+
+def DS.setConn (s : DS) (c : Conn) : DS :=
+  { s with conns := s.conns.map fun d => if d.id == c.id then c else d }
+
+def insertConn (c : Conn) : List Conn → List Conn
+  | [] => [c]
+  | d :: ds => if c.id ≤ d.id then c :: d :: ds else d :: insertConn c ds
+
+def hasServerSide (c : Conn) : Bool := c.kind != .fsrv
+def srvOpen (c : Conn) : Bool := hasServerSide c && c.cl.isOpen
+
+def showCb (id : Nat) : Cb → String
+  | .latin1 bs => s!"cb{id}:l1:{bs.length}:{hex16 (fnv bs)}"
+  | .utf8 bs => s!"cb{id}:u8:{bs.length}:{hex16 (fnv bs)}"
+
+def showCCb (id : Nat) : CCb → String
+  | .latin1 bs => s!"ccb{id}:l1:{bs.length}:{hex16 (fnv bs)}"
+  | .utf8 bs => s!"ccb{id}:u8:{bs.length}:{hex16 (fnv bs)}"
+
+def showFixed (m : List Nat) : String :=
+  let b := natsToBytes m
+  s!"ext:{hex8 (rd32 (b.drop 8))}:{hex (b.drop 12)}"
+
+def showSMsg : SMsg → String
+  | .classic bs => s!"txt:{bs.length}:{hex16 (fnv bs)}"
+  | .caps => showFixed srvCapsMsg
+  | .notify => showFixed srvNotifyMsg
+  | .provide r => s!"prv:{hex8 srvProvideFlags}:{r.length}:{hex16 (fnv r)}:end"
+
+def statusLine (s : DS) : String :=
+  let closed := s.conns.filter fun c => if c.kind == .fsrv then c.dropped else !srvOpen c
+  let x := if closed.isEmpty then "-" else ",".intercalate (closed.map fun c => toString c.id)
+  let st := s.conns.map fun c =>
+    (if srvOpen c then
+      let d := match c.cl.data with
+        | some d => s!"{d.length},{hex16 (fnv d)}"
+        | none => "-1,0000000000000000"
+      s!" s{c.id}={if c.cl.ext then 1 else 0},{hex8 c.cl.userCap},{c.cl.maxUnsol},{d}"
+    else "") ++
+    (if c.kind == .lib && !c.dropped then s!" l{c.id}={hex8 c.lc.caps}" else "") ++
+    (if c.kind == .fsrv && !c.dropped then s!" c{c.id}={hex8 c.lc.caps}" else "")
+  s!" | x:{x} |{String.join st}"
+
+def finishOp (s : DS) (evs : List String) : DS × List String :=
+  (s, [(if evs.isEmpty then "-" else " ".intercalate evs) ++ statusLine s])
+
+/-- deliver the messages the server wrote to each connection: reference peers see them (`tx`),
+library clients run their message loop.  Returns (state, client-side events, tx events). -/
+def deliver (s : DS) (outs : List (Nat × List SMsg)) : DS × List String × List String :=
+  let Z := mkZ s.ztab
+  outs.foldl (fun (acc : DS × List String × List String) (p : Nat × List SMsg) =>
+    let (s, cev, tx) := acc
+    if p.2.isEmpty then acc else
+    match s.conn p.1 with
+    | none => acc
+    | some c =>
+      match c.kind with
+      | .raw | .rawpre => (s, cev, tx ++ [s!"tx{c.id}:[{",".intercalate (p.2.map showSMsg)}]"])
+      | .lib =>
+        if c.dropped then acc else
+        let wire := p.2.flatMap (SMsg.wire Z)
+        let r := cliFeed Z env0 c.lc wire
+        let evs := r.cbs.map (showCCb c.id) ++ (if r.unmodelled then ["unmodelled"] else [])
+        if r.dropped then
+          (s.setConn { c with lc := r.c, dropped := true, cl := closeCl c.cl }, cev ++ evs ++ [s!"cdrop{c.id}"], tx)
+        else (s.setConn { c with lc := r.c }, cev ++ evs, tx)
+      | .fsrv => acc) (s, [], [])
+
+def badOp (s : DS) : DS × List String := (s, ["bad-op"])
+
+/-- bytes from a client of the real server: run the handler, deliver replies -/
+def serverInput (s : DS) (c : Conn) (pre : List String) (input : Bytes) : DS × List String :=
+  let Z := mkZ s.ztab
+  let r := feed Z env0 s.cfg c.cl input
+  let s1 := s.setConn { c with cl := r.cl }
+  let cbs := r.cbs.map (showCb c.id) ++ (if r.unmodelled then ["unmodelled"] else [])
+  let (s2, cev, tx) := deliver s1 [(c.id, r.out)]
+  -- a library client whose connection the server closed sees EOF and gives up
+  match s2.conn c.id with
+  | some c2 =>
+    if c2.kind == .lib && !c2.cl.isOpen && !c2.dropped then
+      finishOp (s2.setConn { c2 with dropped := true }) (pre ++ cbs ++ cev ++ [s!"cdrop{c.id}"] ++ tx)
+    else finishOp s2 (pre ++ cbs ++ cev ++ tx)
+  | none => finishOp s2 (pre ++ cbs ++ cev ++ tx)
+
+def showCliWire (Z : Zlib) (t : Bytes) (utf8 : Bool) : String :=
+  if utf8 then
+    let r := record (t ++ [0])
+    let _ := Z
+    s!"ext:{hex8 cliNotifyFlags}:-,prv:{hex8 cliProvideFlags}:{r.length}:{hex16 (fnv r)}:more"
+  else s!"txt:{t.length}:{hex16 (fnv t)}"
+
+def parseFin (s : String) : Option Fin :=
+  if s == "end" then some .done else if s == "more" then some .more else if s == "err" then some .err
+  else none
+
+def dstep (s : DS) (toks : List String) : DS × List String :=
+  match toks with
+  | ["def", name, "hex", h] =>
+    match unhexFast h with
+    | some b => ({ s with blobs := (name, b) :: s.blobs }, ["ok"])
+    | none => badOp s
+  | "def" :: name :: "cat" :: parts =>
+    match parts.mapM s.blob with
+    | some bs => ({ s with blobs := (name, bs.flatten) :: s.blobs }, ["ok"])
+    | none => badOp s
+  | ["zdef", z, fin, plain] =>
+    match s.blob z, parseFin fin, s.blob plain with
+    | some zb, some f, some p => ({ s with ztab := ((zb.length, fnv zb), ⟨p, f⟩) :: s.ztab }, ["ok"])
+    | _, _, _ => ({ s with ztab := s.ztab }, ["ok"])   -- the harness answers "ok" to every zdef
+  | ["cb8", v] => finishOp { s with cfg := ⟨v != "0"⟩ } []
+  | ["pub", b] =>
+    match s.blob b with
+    | none => badOp s
+    | some t =>
+      let outs := s.conns.filter hasServerSide |>.map fun c => (c.id, sendClassicOne c.cl t)
+      let (s1, cev, tx) := deliver s outs
+      finishOp s1 (cev ++ tx)
+  | ["pub8", b, f] =>
+    match s.blob b, (if f == "null" then some none else (s.blob f).map some) with
+    | some t, some fb =>
+      let rs := s.conns.filter hasServerSide |>.map fun c => (c, sendUtf8One c.cl t fb)
+      let s1 := rs.foldl (fun s (p : Conn × Cl × List SMsg) => s.setConn { p.1 with cl := p.2.1 }) s
+      let (s2, cev, tx) := deliver s1 (rs.map fun p => (p.1.id, p.2.2))
+      finishOp s2 (cev ++ tx)
+    | _, _ => badOp s
+  | [k, id] =>
+    match id.toNat? with
+    | none => badOp s
+    | some id =>
+      if k == "raw" || k == "rawpre" then
+        if id ≥ 16 || (s.conn id).isSome then badOp s else
+        finishOp { s with conns := insertConn { id := id, kind := if k == "raw" then .raw else .rawpre } s.conns } []
+      else if k == "close" then
+        match s.conn id with
+        | some c =>
+          if (c.kind == .raw || c.kind == .rawpre) && !c.dropped then
+            finishOp (s.setConn { c with cl := closeCl c.cl, dropped := true }) []
+          else badOp s
+        | none => badOp s
+      else badOp s
+  | [k, id, a] =>
+    match id.toNat? with
+    | none => badOp s
+    | some id =>
+      if k == "lib" || k == "fsrv" then
+        if id ≥ 16 || (s.conn id).isSome then badOp s else
+        let u := a != "0"
+        let c : Conn := { id := id, kind := if k == "lib" then .lib else .fsrv, lc := ⟨true, u, 0⟩ }
+        let s1 := { s with conns := insertConn c s.conns }
+        if k == "lib" && u then
+          serverInput s1 c [] ([2, 0, 0, 1] ++ be32 encExtendedClipboard)
+        else finishOp s1 []
+      else
+      match s.conn id with
+      | none => badOp s
+      | some c =>
+        if k == "viewonly" then
+          if srvOpen c then finishOp (s.setConn { c with cl := { c.cl with viewOnly := a != "0" } }) []
+          else badOp s
+        else if k == "send" then
+          match s.blob a with
+          | some b => if c.kind == .raw && srvOpen c then serverInput s c [] b else badOp s
+          | none => badOp s
+        else if k == "csend" || k == "csend8" then
+          match s.blob a with
+          | none => badOp s
+          | some t =>
+            if (c.kind != .lib && c.kind != .fsrv) || c.dropped then badOp s else
+            let Z := mkZ s.ztab
+            let wire := if k == "csend" then some (cliSendClassic t) else cliSendUtf8 Z c.lc t
+            match wire with
+            | none => finishOp s ["ret0"]
+            | some w =>
+              if c.kind == .lib then serverInput s c ["ret1"] w
+              else finishOp s ["ret1", s!"ctx{c.id}:[{showCliWire Z t (k == "csend8")}]"]
+        else if k == "fsend" then
+          match s.blob a with
+          | none => badOp s
+          | some b =>
+            if c.kind != .fsrv || c.dropped then badOp s else
+            let Z := mkZ s.ztab
+            let r := cliFeed Z env0 c.lc b
+            let evs := r.cbs.map (showCCb c.id) ++ (if r.unmodelled then ["unmodelled"] else [])
+            if r.dropped then finishOp (s.setConn { c with lc := r.c, dropped := true }) (evs ++ [s!"cdrop{c.id}"])
+            else finishOp (s.setConn { c with lc := r.c }) evs
+        else badOp s
+  | ["fsend", id, a, "eof"] =>
+    match id.toNat?, s.blob a with
+    | some id, some b =>
+      match s.conn id with
+      | some c =>
+        if c.kind != .fsrv || c.dropped then badOp s else
+        let Z := mkZ s.ztab
+        let r := cliFeed Z env0 c.lc b
+        let evs := r.cbs.map (showCCb c.id) ++ (if r.unmodelled then ["unmodelled"] else [])
+        -- the peer has shut its side down: whatever state the loop is in, the next read fails
+        finishOp (s.setConn { c with lc := r.c, dropped := true }) (evs ++ [s!"cdrop{c.id}"])
+      | none => badOp s
+    | _, _ => badOp s
+  | ["cuts", _, _, _] => (s, ["ok"])
+  | _ => badOp s
+
+def main : IO Unit := runDriver ({} : DS) dstep
